@@ -193,7 +193,7 @@ Qed.
 
 Lemma step_ok c e g o : Forall (member_ok c) g -> Forall (member_ok c) (fst (step c e g o)).
 Proof.
-  intro G. destruct o as [id|k ids|a v|a|k| |]; cbn [step]; try exact G.
+  intro G. destruct o as [id|k ids|a v|a|k| | |id' a v| |a v k' e']; cbn [step]; try exact G.
   - destruct (type_of e id) as [ty|] eqn:T; [|exact G].
     destruct (fresh e id) as [m|] eqn:Fr; [|exact G].
     destruct (accepts c ty) eqn:A; [|exact G]. cbn [fst].
@@ -210,6 +210,11 @@ Proof.
     eapply Forall_same_meta; eauto.
   - destruct (find_descr c a); exact G.
   - cbn [fst]. induction G as [|m g [P A] G IH]; cbn [map]; constructor; auto. split; assumption.
+  - cbn [fst]. induction G as [|m g [P A] G IH]; cbn [map]; constructor; auto.
+    destruct (mid m =? id'); split; assumption.
+  - destruct (find_descr c a) as [d|]; [|exact G].
+    pose proof (set_sem_rej_meta d v k' e' g) as F. destruct (set_sem_rej d v k' e' g) as [g' o]. cbn [fst] in *.
+    eapply Forall_same_meta; eauto.
 Qed.
 
 Lemma exec_cons c e g o ops : exec c e g (o :: ops) = exec c e (fst (step c e g o)) ops.
@@ -237,12 +242,16 @@ Proof. intro F. induction F as [|m m' g g' (H & _) F IH]; cbn [map]; [reflexivit
 Lemma membership_stable c e g o : changes_membership o = false ->
   map mid (fst (step c e g o)) = map mid g.
 Proof.
-  intro H. destruct o as [id|k ids|a v|a|k| |]; try discriminate; cbn [step]; try reflexivity.
+  intro H. destruct o as [id|k ids|a v|a|k| | |id' a v| |a v k' e']; try discriminate; cbn [step]; try reflexivity.
   - destruct (find_descr c a) as [d|]; [|reflexivity].
     pose proof (set_sem_meta d v g) as F. destruct (set_sem d v g) as [g' o]. cbn [fst] in *.
     now apply same_meta_ids.
   - destruct (find_descr c a); reflexivity.
   - cbn [fst]. rewrite map_map. apply map_ext. reflexivity.
+  - cbn [fst]. rewrite map_map. apply map_ext. intro m. destruct (mid m =? id'); reflexivity.
+  - destruct (find_descr c a) as [d|]; [|reflexivity].
+    pose proof (set_sem_rej_meta d v k' e' g) as F. destruct (set_sem_rej d v k' e' g) as [g' o]. cbn [fst] in *.
+    now apply same_meta_ids.
 Qed.
 
 (* ---- distinct objects stay distinct members -------------------------------------------------- *)
@@ -305,7 +314,7 @@ Qed.
 Lemma step_nodup c e g o : NoDup (map mid g) -> op_fresh g o = true -> NoDup (map mid (fst (step c e g o))).
 Proof.
   intros N Fr. destruct (changes_membership o) eqn:Ch.
-  - destruct o as [id|k ids|a v|a|k| |]; try discriminate; cbn [step op_fresh] in *.
+  - destruct o as [id|k ids|a v|a|k| | |id' a v| |a v k' e']; try discriminate; cbn [step op_fresh] in *.
     + destruct (type_of e id) as [ty|]; [|exact N].
       destruct (fresh e id) as [m|] eqn:F; [|exact N].
       destruct (accepts c ty); [|exact N]. cbn [fst]. rewrite map_app. cbn [map].
@@ -324,6 +333,15 @@ Proof.
   induction ops as [|o ops IH]; intros g N H; [exact N|].
   cbn [hist_fresh] in H. apply andb_true_iff in H as [H1 H2].
   rewrite exec_cons. apply IH; [now apply step_nodup | exact H2].
+Qed.
+
+(* a value written on a member directly (not through the group) is what the group reads next *)
+Lemma direct_then_read c e g d id v : wf_descr d = true ->
+  get_sem d (fst (step c e g (ODirect id (member_attr (d_name d)) v)))
+  = map (fun m => if mid m =? id then v else mget (member_attr (d_name d)) m) g.
+Proof.
+  intro W. destruct (wf_attrs d W) as (_ & Hg & _). cbn [step fst]. unfold get_sem. rewrite Hg, map_map.
+  apply map_ext. intro m. destruct (mid m =? id); [apply mget_mset_same | reflexivity].
 Qed.
 
 (* ---- observing ------------------------------------------------------------------------------------ *)
